@@ -614,6 +614,28 @@ fn layer_a(report: &Report, cli: &Cli, global: &GlobalContext<C>) {
             if bi == 0 || !quick {
                 let pb = to_bytes(&base.proof);
                 let stride = if quick { 13 } else { 1 };
+                // counted parts (atomic proofs, rounds of the inner product arguments) added / removed
+                count_field_edits(&pb).into_par_iter().enumerate().filter(|(i, _)| !quick || i % 3 == 0).for_each(|(_, (what, eb))| {
+                    let mut w = base_w.clone();
+                    w["proof_structural_edit"] = json!(what);
+                    case(report, w, || {
+                        if let Ok(p) = from_bytes::<IdProof, _>(&mut &eb[..]) {
+                            if to_bytes(&p) == pb {
+                                return Ok(());
+                            }
+                            let mut v = base.clone();
+                            v.proof = p;
+                            report.trace(1);
+                            if v.run() {
+                                return fail("altered-proof-verifies", json!({"edit": what}));
+                            }
+                            report.outcome("structural edit rejected", 1);
+                        } else {
+                            report.outcome("structural edit unparsable", 1);
+                        }
+                        Ok(())
+                    });
+                });
                 (0..pb.len() * 8).into_par_iter().filter(|b| b % stride == 0).for_each(|bit| {
                     let mut w = base_w.clone();
                     w["proof_bit_flip"] = json!(bit);
